@@ -7,7 +7,7 @@ use std::collections::{HashMap, HashSet};
 use std::fs;
 use std::path::{Path, PathBuf};
 
-use super::ast::{Declaration, ImportDecl, ImportKind, Program, Span, Visibility};
+use super::ast::{Declaration, ImportDecl, ImportKind, ImportPath, Program, Span, Visibility};
 use super::diagnostics::CompileError;
 use super::lexer;
 use super::parser;
@@ -136,6 +136,28 @@ impl ModuleCollector {
 ///
 /// This is used by both the CLI and the LSP to typecheck multi-file projects.
 pub fn resolve_import_path(base_dir: &Path, import: &ImportDecl) -> Option<PathBuf> {
+    // Rust-style `import a::b::item`: the last segment names the item, the module is `a::b`
+    // (reference/imports_and_modules.md). A single segment (`import a`) names the module itself.
+    if let ImportKind::Module(p) = &import.kind {
+        if p.segments.len() > 1 {
+            let module_part = ImportDecl {
+                kind: ImportKind::Module(ImportPath {
+                    parent_levels: p.parent_levels,
+                    is_absolute: p.is_absolute,
+                    segments: p.segments[..p.segments.len() - 1].to_vec(),
+                }),
+                alias: None,
+            };
+            if let Some(found) = resolve_module_path(base_dir, &module_part) {
+                return Some(found);
+            }
+        }
+    }
+    resolve_module_path(base_dir, import)
+}
+
+/// Resolve a module path (all segments name directories/the module file) relative to `base_dir`.
+fn resolve_module_path(base_dir: &Path, import: &ImportDecl) -> Option<PathBuf> {
     let (path, is_absolute, parent_levels) = match &import.kind {
         ImportKind::Module(p) if !p.segments.is_empty() => (p.segments.clone(), p.is_absolute, p.parent_levels),
         ImportKind::From { module, .. } if !module.segments.is_empty() => {
